@@ -205,9 +205,36 @@ func runC18(c *core.Ctx) {
 	for i := range seeds {
 		seeds[i] = c.R.Int63()
 	}
+	t0 := time.Now()
+	if cold {
+		// one phase per operation: all goroutines are released together to make the process's FIRST
+		// call of that operation at the same time (state that the library fills on first use is then
+		// written and read concurrently); phases are separated by a barrier
+		for oi := range c18ops {
+			release := make(chan struct{})
+			var phase sync.WaitGroup
+			for gi := 0; gi < G; gi++ {
+				phase.Add(1)
+				go func(gi int) {
+					defer phase.Done()
+					my := &res[gi]
+					<-release
+					if p := core.Try(func() {
+						a := time.Since(t0).Nanoseconds()
+						got := c18ops[oi].f(e, refs, wire)
+						my.ivs = append(my.ivs, interval{gi, a, time.Since(t0).Nanoseconds()})
+						my.outs = append(my.outs, output{oi, got})
+					}); p != nil && my.panic == nil {
+						my.panic = p
+					}
+				}(gi)
+			}
+			close(release)
+			phase.Wait()
+		}
+	}
 	start := make(chan struct{})
 	var wg sync.WaitGroup
-	t0 := time.Now()
 	for gi := 0; gi < G; gi++ {
 		wg.Add(1)
 		go func(gi int) {
@@ -215,7 +242,7 @@ func runC18(c *core.Ctx) {
 			r := core.CaseRand(seeds[gi], "C18g", gi)
 			my := &res[gi]
 			<-start
-			my.panic = core.Try(func() {
+			p := core.Try(func() {
 				for round := 0; round < R; round++ {
 					for _, oi := range r.Perm(len(c18ops)) {
 						a := time.Since(t0).Nanoseconds()
@@ -230,6 +257,9 @@ func runC18(c *core.Ctx) {
 					}
 				}
 			})
+			if my.panic == nil {
+				my.panic = p
+			}
 		}(gi)
 	}
 	close(start)
